@@ -131,7 +131,7 @@ def shard(binpath, seed, sh, n):
         desc = action
         if action == "content":
             edits = list(scen.single_edits(wire["signed"], rng, None))
-            special = [e for e in edits if e[0].startswith(("respell@", "match_prefix@", "respell_key@"))]
+            special = [e for e in edits if e[0].startswith(("respell@", "match_prefix@", "respell_key@", "tagged_spelling@", "add_member@"))]
             mp = [e for e in edits if e[0].startswith("match_prefix@")]
             if sc.get("tolerant_match") and mp:
                 content_edit, newdoc = rng.choice(mp)
@@ -211,7 +211,13 @@ def shard(binpath, seed, sh, n):
             expect, reason = "accept", ""
         meta = {"signers": S, "map": M, "mapdesc": mapdesc, "action": desc, "expect": expect, "reason": reason,
                 "content_edit": content_edit, "keytypes": sorted({k.split("-")[0].rstrip("0123456789") for k in S})}
-        cases.append(scen.verify_case(wire, pairs, files, orig_layout=lw if content_edit else None, meta=meta))
+        case = scen.verify_case(wire, pairs, files, orig_layout=lw if content_edit else None, meta=meta)
+        if action != "none" and rng.random() < 0.5:
+            # history: the layout as it was signed is verified first, in the same process and with the same caller key
+            # objects; what these keys have accepted before must not carry over to the edited / re-signed document
+            case["pre_layouts"] = [scen.dumps(lw)]
+            meta["after_genuine"] = True
+        cases.append(case)
     obs = common.run_batch(binpath, cases)
     for c, o in zip(cases, obs):
         m = c["meta"]
@@ -223,6 +229,8 @@ def shard(binpath, seed, sh, n):
         cls += ["ownerkey:" + t for t in m["keytypes"]]
         if m.get("sempres"):
             cls.append("semantics_preserving_edit")
+        if m.get("after_genuine"):
+            cls.append("history:genuine_layout_verified_first:" + str((o.get("pre_runs") or ["?"])[0] == "ok"))
         if m["expect"] == "accept" and ok:
             cls += ["positive_control_accepted"] + ["positive:" + t for t in m["keytypes"]]
         nontrivial = bool(m["signers"]) or bool(m["map"])
@@ -248,5 +256,5 @@ def main(ctx):
         assumptions=["signature validity ground truth is by construction", "value equality for 'semantics-preserving' is the library's PartialEq"],
         required=["positive_control_accepted", "positive:ed", "positive:ec", "positive:rsa", "map:empty", "map:two_ids",
                   "map:superset", "map:disjoint", "map:subset", "map:plus_unknown_scheme_key", "action:content:set", "action:sig:flip", "action:sig:relabel",
-                  "action:sig:other_content", "action:sig:drop", "action:sig:resign_by_other", "expect:reject", "observed:reject"],
+                  "action:sig:other_content", "action:sig:drop", "action:sig:resign_by_other", "expect:reject", "observed:reject", "history:genuine_layout_verified_first:True"],
         min_evals=500)
